@@ -191,4 +191,43 @@ let () = iter_lines (fun l ->
       else if dir = "e" then hx (chachapoly_seal_spec k nn a d)
       else if List.length d < 16 then rc_of c_PS_ARG_FAIL
       else (match chachapoly_open_spec k nn a d with Some p -> "ok " ^ hx p | None -> "authfail")
+  | ["des3"; dir; key; iv; data; spl; _al; ip] ->
+      let k = un key and v = un iv and d = un data in
+      if List.length k <> 24 || List.length v <> 8 || List.length d mod 8 <> 0 then "BADCASE" else
+      let chunks = split_chunks spl d in
+      if List.exists (fun c -> List.length c mod 8 <> 0) chunks then "BADCASE" else
+      let inplace = (ip = "1") in
+      if dir = "e" then check2 (hx (fst (ps_des3_encrypt_calls k inplace v chunks))) (fun () -> hx (des3_cbc_encrypt_spec k v d))
+      else check2 (hx (fst (ps_des3_decrypt_calls k inplace v chunks))) (fun () -> hx (des3_cbc_decrypt_spec k v d))
+  | ["m5s1"; msg; spl; _al] ->
+      let m = un msg in
+      check (hx (md5sha1_final (List.fold_left md5sha1_update md5sha1_init (split_chunks spl m)))) (hx (md5sha1_spec m))
+  | ["aesb"; dir; key; blk; _al; _ip] ->
+      (* psAesEncryptBlock / psAesDecryptBlock are table-driven; FIPS 197 as transcribed in CryptoSym.v is spec and model *)
+      let k = un key and b = un blk in
+      if List.length b <> 16 then "BADCASE"
+      else if not (List.mem (List.length k) [16; 24; 32]) then "rc=badkey"
+      else hx (if dir = "e" then aes_encrypt_block k b else aes_decrypt_block k b)
+  | ["pb1"; pw; salt] ->
+      let p = un pw and s = un salt in
+      if List.length s <> 8 then "BADCASE" else check (hx (pbkdf1_md5 p s)) (hx (pbkdf1_md5_spec p s))
+  | ["sa2"; msg; _al] -> let m = un msg in hx (sha256_final (sha256_update sha256_init m))
+  | ["s5s"; msg; _al] -> let m = un msg in hx (sha512_final (sha512_update sha512_init m))
+  | ["hsg"; alg; msg; spl] ->
+      (* psHashInit dispatches on the OID: SHA-256 / SHA-384 / SHA-512, anything else PS_UNSUPPORTED_FAIL *)
+      let m = un msg in
+      if List.mem alg ["sha256"; "sha384"; "sha512"] then digest alg (split_chunks spl m) m else rc_of c_PS_UNSUPPORTED_FAIL
+  | ["hm0"; alg; key; msg] ->
+      let m = un msg and k = un key in
+      check2 (hmac_stream alg k [m]) (fun () -> hmac_spec alg k m)
+  | ["chpd"; "e"; key; nonce; aad; data; _al; _ip] ->
+      let k = un key and nn = un nonce and a = un aad and d = un data in
+      if List.length k <> 32 || List.length nn <> 12 then "BADCASE" else
+      let sealed = chachapoly_seal_spec k nn a d in
+      let n = List.length d in
+      hx (List.filteri (fun i _ -> i < n) sealed) ^ " " ^ hx (List.filteri (fun i _ -> i >= n) sealed)
+  | ["chpd"; "d"; key; nonce; aad; data; tag; _al; _ip] ->
+      let k = un key and nn = un nonce and a = un aad and d = un data and t = un tag in
+      if List.length k <> 32 || List.length nn <> 12 || List.length t <> 16 then "BADCASE" else
+      (match chachapoly_open_spec k nn a (d @ t) with Some p -> "ok " ^ hx p | None -> "authfail")
   | _ -> "BADCASE")
